@@ -57,21 +57,21 @@ static const char *ref_Box_pass_through_ns(Box const *t, const char *s) { return
 //REF Box::str_len(Box const *,std::string const *)
 static int ref_Box_str_len_ns(Box const *t, const std::string *s) { return t->str_len(*s); }
 // -promiscuous also exports the public data members and the global trace cell
-//OPTIONAL get_g_trace() : c_fnames,c_string_fnames,c,c_string,c_fnames_fptrs,c_fnames_uniq,c_fnames_nodb,c_true_names
+//OPTIONAL get_g_trace() : c_fnames,c_string_fnames,c,c_string,c_fnames_fptrs,c_fnames_uniq,c_fnames_nodb,c_true_names,py_string_fnames,py_fnames,py
 //REF get_g_trace()
 static int ref_get_g_trace() { return g_trace; }
-//OPTIONAL set_g_trace(int) : c_fnames,c_string_fnames,c,c_string,c_fnames_fptrs,c_fnames_uniq,c_fnames_nodb,c_true_names
+//OPTIONAL set_g_trace(int) : c_fnames,c_string_fnames,c,c_string,c_fnames_fptrs,c_fnames_uniq,c_fnames_nodb,c_true_names,py_string_fnames,py_fnames,py
 //REF set_g_trace(int)
 static void ref_set_g_trace(int v) { g_trace = v; }
-//OPTIONAL Box::Inner::get_i(Box::Inner const *) : c_fnames,c_string_fnames,c,c_string,c_fnames_fptrs,c_fnames_uniq,c_fnames_nodb,c_true_names
+//OPTIONAL Box::Inner::get_i(Box::Inner const *) : c_fnames,c_string_fnames,c,c_string,c_fnames_fptrs,c_fnames_uniq,c_fnames_nodb,c_true_names,py_string_fnames,py_fnames,py
 //REF Box::Inner::get_i(Box::Inner const *)
 static int ref_Inner_get_i(Box::Inner const *t) { return t->_i; }
-//OPTIONAL Box::Inner::set_i(Box::Inner *,int) : c_fnames,c_string_fnames,c,c_string,c_fnames_fptrs,c_fnames_uniq,c_fnames_nodb,c_true_names
+//OPTIONAL Box::Inner::set_i(Box::Inner *,int) : c_fnames,c_string_fnames,c,c_string,c_fnames_fptrs,c_fnames_uniq,c_fnames_nodb,c_true_names,py_string_fnames,py_fnames,py
 //REF Box::Inner::set_i(Box::Inner *,int)
 static void ref_Inner_set_i(Box::Inner *t, int v) { t->_i = v; }
-//OPTIONAL Box::get_w(Box const *) : c_fnames,c_string_fnames,c,c_string,c_fnames_fptrs,c_fnames_uniq,c_fnames_nodb,c_true_names
+//OPTIONAL Box::get_w(Box const *) : c_fnames,c_string_fnames,c,c_string,c_fnames_fptrs,c_fnames_uniq,c_fnames_nodb,c_true_names,py_string_fnames,py_fnames,py
 //REF Box::get_w(Box const *)
 static int ref_Box_get_w(Box const *t) { return t->_w; }
-//OPTIONAL Box::set_w(Box *,int) : c_fnames,c_string_fnames,c,c_string,c_fnames_fptrs,c_fnames_uniq,c_fnames_nodb,c_true_names
+//OPTIONAL Box::set_w(Box *,int) : c_fnames,c_string_fnames,c,c_string,c_fnames_fptrs,c_fnames_uniq,c_fnames_nodb,c_true_names,py_string_fnames,py_fnames,py
 //REF Box::set_w(Box *,int)
 static void ref_Box_set_w(Box *t, int v) { t->_w = v; }
